@@ -128,6 +128,7 @@ func (r *run) bgCase() {
 // ---------------------------------------------------------------- keys: Set / Get / ForEachKey / Copy from several goroutines
 
 const keysWriters = 3
+const maxKeysLog = 1500 // reads recorded per reader
 
 type pairRec struct {
 	W          int
@@ -189,6 +190,19 @@ func (r *run) keysH(c context.Context, ctx *app.RequestContext) {
 		go func(g int) {
 			defer rg.Done()
 			defer guard("keys reader")
+			// what was read is kept in memory and written out when the writers are done: a reader that formats a
+			// line per read hardly ever overlaps a write
+			type logged struct {
+				ev  string
+				rec vtrace.Rec
+			}
+			log := make([]logged, 0, 1024)
+			note := func(ev string, rec vtrace.Rec) { log = append(log, logged{ev, rec}) }
+			defer func() {
+				for _, e := range log {
+					r.emit(e.ev, e.rec)
+				}
+			}()
 			if g != 0 { // the other readers join once the first pair has been written
 				for atomic.LoadInt64(&completed[0]) == 0 {
 					runtime.Gosched()
@@ -199,6 +213,9 @@ func (r *run) keysH(c context.Context, ctx *app.RequestContext) {
 				case <-stop:
 					return
 				default:
+				}
+				if len(log) >= maxKeysLog {
+					return
 				}
 				if i == 3 && g == 0 { // the goroutine that only uses Value has looked at the still empty store: the writers may start
 					first.Done()
@@ -232,7 +249,7 @@ func (r *run) keysH(c context.Context, ctx *app.RequestContext) {
 						ok = v != 0
 					}
 					hi := atomic.LoadInt64(&started[w])
-					r.emit("KGet", vtrace.Rec{"via": via, "w": w, "key": which, "v": v, "has": ok, "lo": lo, "hi": hi})
+					note("KGet", vtrace.Rec{"via": via, "w": w, "key": which, "v": v, "has": ok, "lo": lo, "hi": hi})
 				case 2, 3: // ForEachKey: one snapshot of all pairs
 					var lo, hi [keysWriters]int64
 					for x := 0; x < keysWriters; x++ {
@@ -252,7 +269,7 @@ func (r *run) keysH(c context.Context, ctx *app.RequestContext) {
 						hi[x] = atomic.LoadInt64(&started[x])
 						ps[x].W, ps[x].Lo, ps[x].Hi = x, lo[x], hi[x]
 					}
-					r.emit("KSnap", vtrace.Rec{"via": "ForEachKey", "pairs": recs(ps)})
+					note("KSnap", vtrace.Rec{"via": "ForEachKey", "pairs": recs(ps)})
 				default: // Copy: the keys of the copy are one snapshot
 					var lo, hi [keysWriters]int64
 					for x := 0; x < keysWriters; x++ {
@@ -268,7 +285,7 @@ func (r *run) keysH(c context.Context, ctx *app.RequestContext) {
 						ps[x].A, ps[x].HasA = num(cp.Get(ka(x)))
 						ps[x].B, ps[x].HasB = num(cp.Get(kb(x)))
 					}
-					r.emit("KSnap", vtrace.Rec{"via": "Copy", "pairs": recs(ps)})
+					note("KSnap", vtrace.Rec{"via": "Copy", "pairs": recs(ps)})
 				}
 				runtime.Gosched()
 			}
